@@ -11,7 +11,7 @@ def kw(prefix, i):
     return "%s%02d" % (prefix, i)
 
 
-def gen_grammar(r, big=False):
+def gen_grammar(r, big=False, imports=False):
     """A grammar spec: common rules C0..Ck (C0 is the root), abstract rules A0..Aj (Ai refers
     to commons, prims and Aj with j > i), one user match rule W."""
     ncommon = r.range(2, 7 if big else 5)
@@ -72,7 +72,10 @@ def gen_grammar(r, big=False):
         rules[c] = {"kind": "common", "kw": kw("c", ci), "attrs": attrs}
     rules["W"] = {"kind": "match"}
     order = commons + abstracts + ["W"]
-    return {"order": order, "rules": rules}
+    if imports:
+        rules["Import"] = {"kind": "import"}
+        order.append("Import")
+    return {"order": order, "rules": rules, "imports": imports}
 
 
 def grammar_text(g):
@@ -81,10 +84,12 @@ def grammar_text(g):
         ru = g["rules"][name]
         if ru["kind"] == "match":
             out.append("%s: /w[0-9]+/;" % name)
+        elif ru["kind"] == "import":
+            out.append("Import: 'import' importURI=STRING;")
         elif ru["kind"] == "abstract":
             out.append("%s: %s;" % (name, " | ".join(ru["alts"])))
         else:
-            parts = ["'%s'" % ru["kw"], "name=ID", "'('"]
+            parts = ["'%s'" % ru["kw"], "name=ID"] + (["imports*=Import"] if (g.get("imports") and name == "C0") else []) + ["'('"]
             for a in ru["attrs"]:
                 k = a["kind"]
                 if k == "one":
@@ -118,9 +123,10 @@ def concretes(g, t):
     return res
 
 
-def gen_model(r, g, maxobjs):
-    """Containment tree with unique names, then references by name."""
-    cnt = [0]
+def gen_model(r, g, maxobjs, start=0, extern=()):
+    """Containment tree with unique names, then references by name (also to `extern` objects)."""
+    cnt = [start]
+    maxobjs += start
     objs = []
 
     def prim(t):
@@ -178,7 +184,7 @@ def gen_model(r, g, maxobjs):
             if a["kind"] not in ("ref", "refs"):
                 continue
             cs = [c for c in concretes(g, a["type"]) if c not in PRIMS]
-            cands = [x["name"] for x in objs if x["rule"] in cs]
+            cands = [x["name"] for x in list(objs) + list(extern) if x["rule"] in cs]
             if not cands:
                 continue
             if a["kind"] == "ref":
@@ -196,7 +202,7 @@ def model_text(g, o):
             return v["text"]
         return model_text(g, v)
     ru = g["rules"][o["rule"]]
-    parts = [ru["kw"], o["name"], "("]
+    parts = [ru["kw"], o["name"]] + ['import "%s"' % f for f in o.get("imports", [])] + ["("]
     for a in ru["attrs"]:
         k = a["kind"]
         v = o["attrs"].get(a["name"])
@@ -237,9 +243,18 @@ def expected_refs(objs):
 
 
 def gen_case(r, thorough=False):
-    g = gen_grammar(r.split("g"), big=thorough)
+    multi = r.split("multi").chance(0.15)
+    g = gen_grammar(r.split("g"), big=thorough, imports=multi)
     maxobjs = r.weighted([(4, 2), (8, 4), (14, 3), (22, 1)]) if not thorough else r.weighted([(5, 2), (10, 3), (18, 3), (30, 2)])
-    root, objs = gen_model(r.split("m"), g, maxobjs)
+    files = {}
+    objs2 = []
+    if multi:
+        root2, objs2 = gen_model(r.split("m2"), g, max(3, maxobjs // 2), start=100)
+        files["other.m"] = model_text(g, root2)
+    root, objs = gen_model(r.split("m"), g, maxobjs, extern=objs2)
+    if multi:
+        root["imports"] = ["other.m"]
+    objs = objs + objs2
     text = model_text(g, root)
     refs = expected_refs(objs)
     rr = r.split("p")
@@ -284,7 +299,7 @@ def gen_case(r, thorough=False):
                 bad = None
             text = " ".join(toks)
     postpone = bad is not None and rr.chance(0.5)
-    return {"grammars": {"main.tx": grammar_text(g)}, "main": "main.tx", "model": text, "reg": reg, "postpone_bad": postpone,
+    return {"grammars": {"main.tx": grammar_text(g)}, "main": "main.tx", "model": text, "files": files, "reg": reg, "postpone_bad": postpone,
             "actions": actions, "user": user, "expect_refs": refs, "expect_error": bad is not None,
             "match_rules": ["W"]}
 
@@ -484,9 +499,10 @@ def oracle(case, o, idx_of):
     reg = {idx_of[n] for n in case["reg"] if n in idx_of}
     byname = {}
     acc = []
-    objects_of(o["root_d"], o["root_match"], o["tree"], acc)
+    for m in o["models"]:
+        objects_of(m["root_d"], m["root_match"], m["tree"], acc)
     for _, v in acc:
-        if "id" in v:
+        if "id" in v and v.get("name") is not None:
             byname[v["name"]] = v["id"]
     actions = {}
     for p, on, kind, k in case["actions"]:
@@ -502,7 +518,7 @@ def oracle(case, o, idx_of):
         if "id" in v and v["cls"][1] in reg:
             n = sum(1 for c in calls if c[0] == v["cls"][1] and c[1] == v["id"])
             if n != 1:
-                bad.append("processor of rule %s ran %d time(s) for object %s" % (o["names"][v["cls"][1]], n, v["name"]))
+                bad.append("processor of rule %s ran %d time(s) for object %s" % (o["names"][v["cls"][1]], n, v["name"] or "#%d" % v["id"]))
     # (2) declared (abstract) rule: once per stored object, after the own-rule processor
     atom_slots = {}
     for d, v in acc:
@@ -527,7 +543,7 @@ def oracle(case, o, idx_of):
             bad.append("processor of declared rule %s ran %d time(s) for %d stored value(s) %s" % (o["names"][p], m, n, snap))
     # (3) nothing else ran, argument states and order: the full expected schedule
     ex = Expect(reg, actions)
-    v2, _, _ = ex.visit(o["root_d"], o["root_match"], o["tree"])
+    finals = [ex.visit(m["root_d"], m["root_match"], m["tree"])[0] for m in o["models"]]
     if len(calls) != len(ex.calls):
         bad.append("%d processor calls, the statement allows exactly %d" % (len(calls), len(ex.calls)))
     # (4) children before containers
@@ -546,6 +562,7 @@ def oracle(case, o, idx_of):
         diff = [c for c in calls if c not in ex.calls][:1]
         bad.append("a processor call differs from the documented one (argument state): %r" % diff)
     # (6) replacement: final content of every slot
-    if o["final"] != show_value(v2):
-        bad.append("final model differs from the documented replacement result: %s vs %s" % (o["final"], show_value(v2)))
+    for m, v2 in zip(o["models"], finals):
+        if m["final"] != show_value(v2):
+            bad.append("final model differs from the documented replacement result: %s vs %s" % (m["final"], show_value(v2)))
     return bad
